@@ -700,8 +700,26 @@ class Prov:
                 base = ('unknownproj', base)
         return base
 
+    def _addr_taken_mut(self, l):
+        """Local whose address is taken mutably (or raw): its value may change behind our back."""
+        c = getattr(self.fn, '_atm', None)
+        if c is None:
+            c = set()
+            for b in self.fn.blocks:
+                for s in b['stmts']:
+                    if s['k'] == 'assign' and s['rv']['r'] in ('ref', 'rawptr') and s['rv'].get('mut'):
+                        p = s['rv']['p']
+                        # &mut local / &mut local[..] / &mut local.f  (not through a deref)
+                        if '*' not in p['p']:
+                            c.add(p['l'])
+            self.fn._atm = c
+        return l in c
+
     def local(self, l, depth=0):
         fn = self.fn
+        if self._addr_taken_mut(l) and not (1 <= l <= fn.arg_count) and \
+                fn.local_ty(l).startswith(('[', 'u', 'i', 'bool', '(')):
+            return ('local', l, fn.local_name(l))
         if 1 <= l <= fn.arg_count:
             # a parameter that is never reassigned as a whole
             if not fn.whole_defs(l):
